@@ -1136,3 +1136,25 @@ package server
 //@   at-return [set.others] result2 == nil ==> allint(c, c != col ==> astype(c, "collection.Collection").objs == old(astype(c, "collection.Collection").objs))
 //@   at-return [reply] result2 == nil && msg.OutputType == RESP && !ret && result1.updated ==> result0 == respSimple("OK")
 //@   at-return [json-reply] result2 == nil && msg.OutputType == JSON && !ret ==> jsonDoc(result0)
+
+// ---- WHERE on one field value (C12): the comparison the clause spells, over the value order vless ----------
+//@ func mLT
+//@   inline
+//@ func mLTE
+//@   inline
+//@ func mGT
+//@   inline
+//@ func mGTE
+//@   inline
+//@ func mEQ
+//@   inline
+//@ ghost macro wOp(where) = valData(where.min)
+//@ func whereT.matchField
+//@   modifies nothing
+//@   ensures [lt] wOp(where) == "<" ==> result == vless(value, where.max)
+//@   ensures [lte] wOp(where) == "<=" ==> result == !vless(where.max, value)
+//@   ensures [gt] wOp(where) == ">" ==> result == vless(where.max, value)
+//@   ensures [gte] wOp(where) == ">=" ==> result == !vless(value, where.max)
+//@   ensures [eq] wOp(where) == "==" ==> result == valEq(value, where.max)
+//@   ensures [ne] wOp(where) == "!=" ==> result == !valEq(value, where.max)
+//@   ensures [range] wOp(where) != "<" && wOp(where) != "<=" && wOp(where) != ">" && wOp(where) != ">=" && wOp(where) != "==" && wOp(where) != "!=" ==> result == (ite(where.minx, vless(where.min, value), !vless(value, where.min)) && ite(where.maxx, vless(value, where.max), !vless(where.max, value)))
